@@ -26,6 +26,7 @@ def S(name, k, neg=False):
     return ("s", name, k, neg)
 
 
+_UNRESOLVED = re.compile(r"found T, expected|can become T\b")
 _CANON = re.compile(r"(\.0)+$")
 
 
@@ -188,6 +189,9 @@ class Ctx:
         self.programs = {}  # property -> set of declarations analysed
 
     def ob(self, props, key, ok, detail="", sample=None):
+        # a mismatch at a bit the interpreter could not resolve is not a verdict
+        if ok is False and _UNRESOLVED.search(detail or ""):
+            ok = None
         self.obs.append(Ob(tuple(props), key, ok, detail, sample))
 
     def note_shape(self, props, decl, shape):
@@ -784,6 +788,8 @@ def check_enum(ctx, cr, e):
                         d = "Err payload for raw value %d is %s" % (x, got)
             ctx.ob(props | ({"C10"} if exhaustive else set()), okey, d is None, d or "",
                    sample={"decl": path, "fn": "new_with_raw_value", "raw": x, "ret": v} if (d is None and x == (1 << N) - 1) else None)
+    if concrete_ok:
+        return  # every raw value was decided exactly; the symbolic reading below adds nothing for N <= 8
     run = None
     for r in fn.get("runs", []):
         if not r["part"]:
@@ -800,9 +806,22 @@ def check_enum(ctx, cr, e):
     und = None
     for o in run["outs"]:
         conds = o["conds"]
-        if len(conds) != 1 or "sw" not in conds[0]:
-            und = "the conversion is not a single match on the argument (%d branch conditions): shape not understood" % len(conds)
+        # a `match` gives one condition per outcome; an if-chain gives a run of "!= c" conditions ending in one
+        # "== c" (or none, for the fall-through).  Both are read as: which raw value(s) reach this outcome
+        if not conds or any("sw" not in c for c in conds) or any(c["sw"] != conds[0]["sw"] for c in conds):
+            und = "the conversion does not branch on one value derived from the argument (%d branch conditions): shape not understood" % len(conds)
             break
+        eqs = [c["eq"] for c in conds if "eq" in c]
+        if len(set(eqs)) > 1:
+            continue  # contradictory: unreachable
+        merged = {"sw": conds[0]["sw"]}
+        if eqs:
+            merged["eq"] = eqs[0]
+            if any(eqs[0] in c.get("ne", []) for c in conds):
+                continue  # unreachable
+        else:
+            merged["ne"] = sorted({x for c in conds for x in c.get("ne", [])})
+        conds = [merged]
         sw = int_of(conds[0]["sw"])
         # the value matched on, as a function of the argument: every argument bit must take part, otherwise
         # several raw values share one arm
@@ -860,6 +879,14 @@ def check_enum(ctx, cr, e):
                 break
             seen[r] = nm
         else:
+            excluded = set()
+            for xs in conds[0].get("ne", []):
+                try:
+                    excluded.add(int(xs))
+                except Exception:
+                    pass
+            if N <= 20 and len({x for x in excluded if x < (1 << N)}) == (1 << N) and not [j for j in range(N) if j not in used]:
+                continue  # every raw value is handled by an earlier arm: the fall-through cannot be reached
             otherwise = o
     if und and not bad:
         if not concrete_ok:
